@@ -30,6 +30,17 @@ DecSame(e) == IF e.op \in {"Nested", "NestedMsg"} THEN TRUE
                    /\ m.st = e.st /\ m.off = e.off
                    /\ m.st = "ok" => (m.val = e.val /\ m.vals = e.vals)
 
+\* package-level primitives called directly (family "prim"): encoders fill exactly the predicted bytes of a poisoned
+\* destination and nothing beyond; decoders are judged like the Decoder method of the same kind on a fresh buffer at offset 0
+PrimEncFns == {"EncodeVarint", "EncodeZigZag32", "EncodeZigZag64", "EncodeFixed32", "EncodeFixed64", "EncodeTag"}
+PrimWant(e) == CASE e.op = "EncodeVarint" -> EncVarint(e.a)
+                 [] e.op \in {"EncodeZigZag32", "EncodeZigZag64"} -> EncVarint(ZigZag(e.a))
+                 [] e.op \in {"EncodeFixed32", "EncodeFixed64"} -> e.a
+                 [] OTHER -> EncKey(e.fn, e.wt)
+PrimOK(e) == IF e.op \in PrimEncFns
+             THEN e.st = "ok" /\ e.out = PrimWant(e) /\ e.i1 = Len(PrimWant(e)) /\ e.same = 1
+             ELSE ExplainsDecode(e.buf, 0, 0, e.op, e, e)
+
 Step ==
   /\ l <= Len(Trace)
   /\ LET e == Trace[l] IN
@@ -65,6 +76,9 @@ Step ==
                /\ UNCHANGED <<buf, off, mode, drift, desync>>
           [] e.c = "encmh" ->
                /\ bad' = IF ExplainsEncMapHeader(e) THEN bad ELSE Append(bad, l)
+               /\ UNCHANGED <<buf, off, mode, drift, desync>>
+          [] e.c = "prim" ->
+               /\ bad' = IF PrimOK(e) THEN bad ELSE Append(bad, l)
                /\ UNCHANGED <<buf, off, mode, drift, desync>>
           [] OTHER ->
                /\ desync' = Append(desync, l)
